@@ -258,8 +258,8 @@ package cose
 
 //@ func deterministicBinaryString
 //@   ensures iff [C02, C07, C10]: err == nil <==> (len(data) > 0 && b_major(bytes(data)) == 2 && bstr_wf(bytes(data)))
-//@   ensures canon [C02, C10]: err == nil ==> bytes(result) == canon(bytes(data)) && len(result) > 0
-//@   ensures fast_iff_minimal [C02, C18]: err == nil ==> (head_minimal(bytes(data)) ==> result == data) && (!head_minimal(bytes(data)) ==> fresh(result))
+//@   ensures canon [C02, C07, C10]: err == nil ==> bytes(result) == canon(bytes(data)) && len(result) > 0
+//@   ensures fast_iff_minimal [C02, C07, C18]: err == nil ==> (head_minimal(bytes(data)) ==> result == data) && (!head_minimal(bytes(data)) ==> fresh(result))
 //@   ensures err_nil: err != nil ==> result == nil
 //@   modifies frame [C18]: nothing
 
@@ -323,14 +323,14 @@ package cose
 //@ func (*Sign1Message).toBeSigned
 //@   requires nonnil: m != nil
 //@   ensures err_iff [C01, C07]: err == nil <==> old(tbsOK(m.Headers))
-//@   ensures fun [C01, C02, C03, C04, C20]: err == nil ==> bytes(result) == old(Sig1(ProtBytes(m.Headers), external, m.Payload)) && fresh(result)
+//@   ensures fun [C01, C02, C03, C04, C07, C20]: err == nil ==> bytes(result) == old(Sig1(ProtBytes(m.Headers), external, m.Payload)) && fresh(result)
 //@   ensures err_nil: err != nil ==> result == nil
 //@   modifies frame [C18]: nothing
 
 //@ func (*Signature).toBeSigned
 //@   requires nonnil: s != nil
 //@   ensures err_iff [C01, C07]: err == nil <==> old(tbsOK(s.Headers) && len(bodyProtected) > 0 && b_major(bytes(bodyProtected)) == 2 && bstr_wf(bytes(bodyProtected)))
-//@   ensures fun [C01, C02, C03, C04, C11, C20]: err == nil ==> bytes(result) == old(SigN(bytes(bodyProtected), ProtBytes(s.Headers), external, payload)) && fresh(result)
+//@   ensures fun [C01, C02, C03, C04, C07, C11, C20]: err == nil ==> bytes(result) == old(SigN(bytes(bodyProtected), ProtBytes(s.Headers), external, payload)) && fresh(result)
 //@   ensures err_nil: err != nil ==> result == nil
 //@   modifies frame [C18]: nothing
 
@@ -386,11 +386,11 @@ package cose
 
 //@ func (*Headers).ensureSigningAlgorithm
 //@   requires nonnil: h != nil
-//@   ensures gate [C04]: result == nil ==> (algPresent(h.Protected) ==> algAgrees(h.Protected, alg)) && (algPresent(h.Protected) || len(external) > 0)
+//@   ensures gate [C01, C04]: result == nil ==> (algPresent(h.Protected) ==> algAgrees(h.Protected, alg)) && (algPresent(h.Protected) || len(external) > 0)
 //@   ensures mismatch [C04]: old(uniqueLabels(asmap(h.Protected))) && old(algIntMismatch(h.Protected, alg)) ==> result != nil && Is(result, ErrAlgorithmMismatch)
-//@   ensures inject [C04]: result == nil && !old(algPresent(h.Protected)) && len(external) == 0 ==> old(h.RawProtected) == nil && int64(1) in asmap(h.Protected) && asmap(h.Protected)[int64(1)] == Algorithm(alg)
-//@   ensures absent_raw [C04]: !old(algPresent(h.Protected)) && len(external) == 0 && old(h.RawProtected) != nil ==> result == ErrAlgorithmNotFound
-//@   ensures unchanged [C04, C18, C20]: (result != nil || old(algPresent(h.Protected)) || len(external) > 0) ==> h.Protected == old(h.Protected) && mapdom(asmap(h.Protected)) == old(mapdom(asmap(h.Protected))) && mapval(asmap(h.Protected)) == old(mapval(asmap(h.Protected)))
+//@   ensures inject [C01, C04]: result == nil && !old(algPresent(h.Protected)) && len(external) == 0 ==> old(h.RawProtected) == nil && int64(1) in asmap(h.Protected) && asmap(h.Protected)[int64(1)] == Algorithm(alg)
+//@   ensures absent_raw [C01, C04]: !old(algPresent(h.Protected)) && len(external) == 0 && old(h.RawProtected) != nil ==> result == ErrAlgorithmNotFound
+//@   ensures unchanged [C01, C04, C18, C20]: (result != nil || old(algPresent(h.Protected)) || len(external) > 0) ==> h.Protected == old(h.Protected) && mapdom(asmap(h.Protected)) == old(mapdom(asmap(h.Protected))) && mapval(asmap(h.Protected)) == old(mapval(asmap(h.Protected)))
 //@   ensures raw_kept: h.RawProtected == old(h.RawProtected) && h.RawUnprotected == old(h.RawUnprotected) && h.Unprotected == old(h.Unprotected)
 //@   modifies frame [C18]: h.Protected, mapof(asmap(h.Protected))
 
@@ -425,7 +425,7 @@ package cose
 //@   ensures err_slot [C20]: m != nil && err != nil ==> m.Signature == old(m.Signature)
 //@   ensures payload_kept [C20]: m != nil ==> m.Payload == old(m.Payload) && m.Headers.RawProtected == old(m.Headers.RawProtected)
 //@         && m.Headers.RawUnprotected == old(m.Headers.RawUnprotected) && m.Headers.Unprotected == old(m.Headers.Unprotected)
-//@   ensures gate [C04]: m != nil && epoch() != old(epoch())
+//@   ensures gate [C01, C04]: m != nil && epoch() != old(epoch())
 //@         ==> (algPresent(m.Headers.Protected) ==> algAgrees(m.Headers.Protected, signer_alg(signer))) && (algPresent(m.Headers.Protected) || len(external) > 0)
 //@   ensures mismatch [C04]: m != nil && old(m.Payload) != nil && old(len(m.Signature)) == 0 && old(uniqueLabels(asmap(m.Headers.Protected))) && old(algIntMismatch(m.Headers.Protected, signer_alg(signer)))
 //@         ==> err != nil && Is(err, ErrAlgorithmMismatch) && epoch() == old(epoch())
@@ -464,7 +464,7 @@ package cose
 //@   ensures err_slot [C11, C20]: s != nil && err != nil ==> s.Signature == old(s.Signature)
 //@   ensures kept [C11, C20]: s != nil ==> s.Headers.RawProtected == old(s.Headers.RawProtected)
 //@         && s.Headers.RawUnprotected == old(s.Headers.RawUnprotected) && s.Headers.Unprotected == old(s.Headers.Unprotected)
-//@   ensures gate [C04]: s != nil && epoch() != old(epoch())
+//@   ensures gate [C01, C04]: s != nil && epoch() != old(epoch())
 //@         ==> (algPresent(s.Headers.Protected) ==> algAgrees(s.Headers.Protected, signer_alg(signer))) && (algPresent(s.Headers.Protected) || len(external) > 0)
 //@   ensures mismatch [C04]: s != nil && payload != nil && old(len(s.Signature)) == 0 && bodyOK(protected) && old(uniqueLabels(asmap(s.Headers.Protected))) && old(algIntMismatch(s.Headers.Protected, signer_alg(signer)))
 //@         ==> err != nil && Is(err, ErrAlgorithmMismatch) && epoch() == old(epoch())
@@ -638,9 +638,9 @@ package cose
 // ===================================================================
 
 //@ func (*byteString).UnmarshalCBOR
-//@   ensures iff [C05, C07]: err == nil <==> (s != nil && len(data) > 0 && (bytes(data) == byte1(246) || (b_major(bytes(data)) == 2 && bstr_wf(bytes(data)))))
-//@   ensures nil_case [C05, C09]: err == nil && bytes(data) == byte1(246) ==> *s == nil
-//@   ensures value [C05, C09, C19]: err == nil && bytes(data) != byte1(246) ==> *s != nil && bytes(*s) == bstr_content(bytes(data)) && fresh(*s)
+//@   ensures iff [C01, C02, C03, C05, C07]: err == nil <==> (s != nil && len(data) > 0 && (bytes(data) == byte1(246) || (b_major(bytes(data)) == 2 && bstr_wf(bytes(data)))))
+//@   ensures nil_case [C01, C02, C03, C05, C07, C09]: err == nil && bytes(data) == byte1(246) ==> *s == nil
+//@   ensures value [C01, C02, C03, C05, C07, C09, C19]: err == nil && bytes(data) != byte1(246) ==> *s != nil && bytes(*s) == bstr_content(bytes(data)) && fresh(*s)
 //@   ensures err_frame [C19]: err != nil && s != nil ==> *s == old(*s)
 //@   modifies frame [C18, C19]: *s
 
@@ -653,10 +653,10 @@ package cose
 //@             && Rules(asmap(p), true) && int64Labels(asmap(p)))
 
 //@ func (*ProtectedHeader).UnmarshalCBOR
-//@   ensures accept [C04, C05, C06, C13]: err == nil ==> h != nil && protDecoded(bytes(data), *h) && fresh(*h)
-//@   ensures alg_typed [C04, C06]: err == nil ==> (forall k any :: k in asmap(*h) && isIntKey(k) && intOf(k) == 1 && algIsInt(asmap(*h)[k]) ==>
+//@   ensures accept [C01, C02, C03, C04, C05, C06, C07, C13]: err == nil ==> h != nil && protDecoded(bytes(data), *h) && fresh(*h)
+//@   ensures alg_typed [C01, C02, C03, C04, C06, C07]: err == nil ==> (forall k any :: k in asmap(*h) && isIntKey(k) && intOf(k) == 1 && algIsInt(asmap(*h)[k]) ==>
 //@         asmap(*h)[k] is Algorithm && algIsInt(dec_map_val(decMode, bstr_content(bytes(data)))[k]) && algInt(asmap(*h)[k]) == algInt(dec_map_val(decMode, bstr_content(bytes(data)))[k]))
-//@   ensures values_kept [C04, C05, C06, C09]: err == nil && blen(bstr_content(bytes(data))) > 0 ==> (forall k any :: k in asmap(*h) && !(isIntKey(k) && intOf(k) == 1) ==>
+//@   ensures values_kept [C01, C02, C03, C04, C05, C06, C07, C09]: err == nil && blen(bstr_content(bytes(data))) > 0 ==> (forall k any :: k in asmap(*h) && !(isIntKey(k) && intOf(k) == 1) ==>
 //@         asmap(*h)[k] == dec_map_val(decMode, bstr_content(bytes(data)))[k])
 //@   ensures complete [C01, C07]: h != nil && len(data) > 0 && b_major(bytes(data)) == 2 && bstr_wf(bytes(data))
 //@         && (blen(bstr_content(bytes(data))) > 0 ==> b_major(bstr_content(bytes(data))) == 5 && dec_labels_err(decMode, bstr_content(bytes(data))) == nil
@@ -681,6 +681,7 @@ package cose
 //@   modifies frame [C18]: nothing
 
 //@ func unmarshalAsCountersignature
+//@   ensures complete_list [C01, C07]: dec_shape_err(decMode, bytes(value), "[]*github.com/veraison/go-cose.Countersignature") == nil ==> err == nil
 //@   ensures kinds [C05, C10, C13]: err == nil ==> (result is *Countersignature && result.(*Countersignature) != nil && fresh(result.(*Countersignature))) || result is []*Countersignature
 //@   ensures err_nil: err != nil ==> result == nil
 //@   modifies frame [C10, C18]: nothing
@@ -692,7 +693,7 @@ package cose
 //@   modifies frame [C18]: nothing
 
 //@ func (*UnprotectedHeader).UnmarshalCBOR
-//@   ensures accept [C05, C06, C13]: err == nil ==> h != nil && unprotDecoded(bytes(data), *h) && fresh(*h)
+//@   ensures accept [C01, C02, C03, C05, C06, C07, C13]: err == nil ==> h != nil && unprotDecoded(bytes(data), *h) && fresh(*h)
 //@   ensures err_frame [C06, C19]: err != nil && h != nil ==> *h == old(*h)
 //@   modifies frame [C06, C18, C19]: *h
 //@   loop 1 invariant keys_copied: forall k any :: (k in header) <==> (k in seen)
@@ -701,12 +702,12 @@ package cose
 
 //@ func (*Headers).UnmarshalFromRaw
 //@   requires nonnil: h != nil
-//@   ensures ok [C05, C06, C13]: err == nil ==> headersDecoded(*h) && fresh(h.Protected) && fresh(h.Unprotected)
-//@   ensures raw_kept [C06, C09, C19]: h.RawProtected == old(h.RawProtected) && h.RawUnprotected == old(h.RawUnprotected)
-//@   modifies frame [C06, C18, C19]: h.Protected, h.Unprotected
+//@   ensures ok [C01, C02, C03, C05, C06, C07, C13]: err == nil ==> headersDecoded(*h) && fresh(h.Protected) && fresh(h.Unprotected)
+//@   ensures raw_kept [C01, C02, C03, C06, C07, C09, C19]: h.RawProtected == old(h.RawProtected) && h.RawUnprotected == old(h.RawUnprotected)
+//@   modifies frame [C01, C02, C03, C06, C07, C18, C19]: h.Protected, h.Unprotected
 
 //@ func (*Signature).UnmarshalCBOR
-//@   ensures accept [C01, C05, C09]: err == nil ==> sigDecoded(bytes(data), s)
+//@   ensures accept [C01, C02, C03, C05, C07, C09]: err == nil ==> sigDecoded(bytes(data), s)
 //@   ensures no_alias [C01, C19]: err == nil ==> fresh(s.Headers.RawProtected) && fresh(s.Headers.RawUnprotected) && fresh(s.Signature) && fresh(s.Headers.Protected) && fresh(s.Headers.Unprotected)
 //@   ensures err_frame [C01, C19]: err != nil && s != nil ==> *s == old(*s)
 //@   modifies frame [C01, C18, C19]: *s
@@ -723,25 +724,25 @@ package cose
 
 //@ func (*Sign1Message).doUnmarshal
 //@   requires nonnil: m != nil
-//@   ensures accept [C05, C06, C09]: err == nil ==> len(data) > 0 && (bat(bytes(data), 0) == 132 ==> sign1Decoded(bytes(data), m))
+//@   ensures accept [C01, C02, C03, C05, C06, C07, C09]: err == nil ==> len(data) > 0 && (bat(bytes(data), 0) == 132 ==> sign1Decoded(bytes(data), m))
 //@         && dec_shape_err(decModeWithTagsForbidden, bytes(data), "github.com/veraison/go-cose.sign1Message") == nil
 //@   ensures no_alias [C06, C19]: err == nil ==> sign1Fresh(m)
 //@   ensures err_frame [C06, C19]: err != nil ==> *m == old(*m)
 //@   modifies frame [C06, C18, C19]: *m
 
 //@ func (*Sign1Message).UnmarshalCBOR
-//@   ensures accept [C01, C05, C06, C09]: err == nil ==> m != nil && len(data) >= 2 && bat(bytes(data), 0) == 210 && sign1Decoded(bytes(data[1:]), m)
+//@   ensures accept [C01, C02, C03, C05, C06, C07, C09]: err == nil ==> m != nil && len(data) >= 2 && bat(bytes(data), 0) == 210 && sign1Decoded(bytes(data[1:]), m)
 //@   ensures no_alias [C01, C06, C19]: err == nil ==> sign1Fresh(m)
 //@   ensures err_frame [C01, C06, C19]: err != nil && m != nil ==> *m == old(*m)
 //@   modifies frame [C01, C06, C18, C19]: *m
 
 //@ func (*UntaggedSign1Message).UnmarshalCBOR
-//@   ensures accept [C01, C05, C09]: err == nil ==> m != nil && sign1Decoded(bytes(data), m)
+//@   ensures accept [C01, C02, C03, C05, C07, C09]: err == nil ==> m != nil && sign1Decoded(bytes(data), m)
 //@   ensures err_frame [C01, C19]: err != nil && m != nil ==> *m == old(*m)
 //@   modifies frame [C01, C18, C19]: *m
 
 //@ func (*Countersignature).UnmarshalCBOR
-//@   ensures accept [C05, C09]: err == nil ==> sigDecoded(bytes(data), s)
+//@   ensures accept [C01, C02, C03, C05, C07, C09]: err == nil ==> sigDecoded(bytes(data), s)
 //@   ensures err_frame [C19]: err != nil && s != nil ==> *s == old(*s)
 //@   modifies frame [C18, C19]: *s
 
@@ -794,12 +795,12 @@ package cose
 //@   loop 1 invariant prefix_nonempty [C01, C11, C20]: forall j Int :: 0 <= j && j < idx ==> m.Signatures[j] != nil && len(m.Signatures[j].Signature) > 0
 
 //@ func (*SignMessage).UnmarshalCBOR
-//@   ensures accept [C01, C05, C09, C11]: err == nil ==> m != nil && len(data) >= 3 && bat(bytes(data), 0) == 216 && bat(bytes(data), 1) == 98 && bat(bytes(data), 2) == 132
+//@   ensures accept [C01, C02, C03, C05, C07, C09, C11]: err == nil ==> m != nil && len(data) >= 3 && bat(bytes(data), 0) == 216 && bat(bytes(data), 1) == 98 && bat(bytes(data), 2) == 132
 //@         && dec_shape_err(decModeWithTagsForbidden, bytes(data[2:]), "github.com/veraison/go-cose.signMessage") == nil
 //@         && bytes(m.Headers.RawProtected) == dec_elem(bytes(data[2:]), 0) && bytes(m.Headers.RawUnprotected) == dec_elem(bytes(data[2:]), 1)
 //@         && headersDecoded(m.Headers)
 //@         && len(m.Signatures) > 0 && len(m.Signatures) == dec_count(bytes(data[2:]), 3)
-//@   ensures sigs [C01, C05, C09, C11]: err == nil ==> (forall i Int :: 0 <= i && i < len(m.Signatures) ==> m.Signatures[i] != nil && len(m.Signatures[i].Signature) > 0 && fresh(m.Signatures[i]))
+//@   ensures sigs [C01, C02, C03, C05, C07, C09, C11]: err == nil ==> (forall i Int :: 0 <= i && i < len(m.Signatures) ==> m.Signatures[i] != nil && len(m.Signatures[i].Signature) > 0 && fresh(m.Signatures[i]))
 //@   ensures no_alias [C01, C19]: err == nil ==> fresh(m.Headers.RawProtected) && fresh(m.Headers.RawUnprotected) && (m.Payload != nil ==> fresh(m.Payload)) && fresh(m.Signatures)
 //@         && fresh(m.Headers.Protected) && fresh(m.Headers.Unprotected)
 //@   ensures err_frame [C01, C19]: err != nil && m != nil ==> *m == old(*m) && (forall i Int :: 0 <= i && i < old(len(m.Signatures)) ==> m.Signatures[i] == old(m.Signatures[i]))
@@ -860,26 +861,26 @@ package cose
 //@ func countersignToBeSigned
 //@   requires ptr_nonnil: (target is *Sign1Message ==> target.(*Sign1Message) != nil) && (target is *SignMessage ==> target.(*SignMessage) != nil)
 //@         && (target is *Signature ==> target.(*Signature) != nil) && (target is *Countersignature ==> target.(*Countersignature) != nil)
-//@   ensures sign1_val [C10]: target is Sign1Message && err == nil ==> len(target.(Sign1Message).Signature) > 0 && target.(Sign1Message).Payload != nil
+//@   ensures sign1_val [C03, C07, C10]: target is Sign1Message && err == nil ==> len(target.(Sign1Message).Signature) > 0 && target.(Sign1Message).Payload != nil
 //@         && bytes(result) == old(tbsSign1(abbreviated, target.(Sign1Message).Headers, target.(Sign1Message).Payload, target.(Sign1Message).Signature, signProtected, external))
-//@   ensures sign1_ptr [C10]: target is *Sign1Message && err == nil ==> len(target.(*Sign1Message).Signature) > 0 && target.(*Sign1Message).Payload != nil
+//@   ensures sign1_ptr [C03, C07, C10]: target is *Sign1Message && err == nil ==> len(target.(*Sign1Message).Signature) > 0 && target.(*Sign1Message).Payload != nil
 //@         && bytes(result) == old(tbsSign1(abbreviated, target.(*Sign1Message).Headers, target.(*Sign1Message).Payload, target.(*Sign1Message).Signature, signProtected, external))
-//@   ensures sign_val [C10]: target is SignMessage && err == nil ==> len(target.(SignMessage).Signatures) > 0 && target.(SignMessage).Payload != nil
+//@   ensures sign_val [C03, C07, C10]: target is SignMessage && err == nil ==> len(target.(SignMessage).Signatures) > 0 && target.(SignMessage).Payload != nil
 //@         && bytes(result) == old(tbsPlain(abbreviated, target.(SignMessage).Headers, target.(SignMessage).Payload, signProtected, external))
-//@   ensures sign_ptr [C10]: target is *SignMessage && err == nil ==> len(target.(*SignMessage).Signatures) > 0 && target.(*SignMessage).Payload != nil
+//@   ensures sign_ptr [C03, C07, C10]: target is *SignMessage && err == nil ==> len(target.(*SignMessage).Signatures) > 0 && target.(*SignMessage).Payload != nil
 //@         && bytes(result) == old(tbsPlain(abbreviated, target.(*SignMessage).Headers, target.(*SignMessage).Payload, signProtected, external))
-//@   ensures sig_val [C10]: target is Signature && err == nil ==> len(target.(Signature).Signature) > 0
+//@   ensures sig_val [C03, C07, C10]: target is Signature && err == nil ==> len(target.(Signature).Signature) > 0
 //@         && bytes(result) == old(tbsPlain(abbreviated, target.(Signature).Headers, target.(Signature).Signature, signProtected, external))
-//@   ensures sig_ptr [C10]: target is *Signature && err == nil ==> len(target.(*Signature).Signature) > 0
+//@   ensures sig_ptr [C03, C07, C10]: target is *Signature && err == nil ==> len(target.(*Signature).Signature) > 0
 //@         && bytes(result) == old(tbsPlain(abbreviated, target.(*Signature).Headers, target.(*Signature).Signature, signProtected, external))
-//@   ensures csig_val [C10]: target is Countersignature && err == nil ==> len(target.(Countersignature).Signature) > 0
+//@   ensures csig_val [C03, C07, C10]: target is Countersignature && err == nil ==> len(target.(Countersignature).Signature) > 0
 //@         && bytes(result) == old(tbsPlain(abbreviated, target.(Countersignature).Headers, target.(Countersignature).Signature, signProtected, external))
-//@   ensures csig_ptr [C10]: target is *Countersignature && err == nil ==> len(target.(*Countersignature).Signature) > 0
+//@   ensures csig_ptr [C03, C07, C10]: target is *Countersignature && err == nil ==> len(target.(*Countersignature).Signature) > 0
 //@         && bytes(result) == old(tbsPlain(abbreviated, target.(*Countersignature).Headers, target.(*Countersignature).Signature, signProtected, external))
-//@   ensures refuse_other [C10]: !(target is Sign1Message || target is *Sign1Message || target is SignMessage || target is *SignMessage
+//@   ensures refuse_other [C03, C07, C10]: !(target is Sign1Message || target is *Sign1Message || target is SignMessage || target is *SignMessage
 //@         || target is Signature || target is *Signature || target is Countersignature || target is *Countersignature) ==> err != nil
-//@   ensures out [C10, C20]: (err == nil ==> fresh(result) && len(result) > 0) && (err != nil ==> result == nil)
-//@   modifies frame [C18]: nothing
+//@   ensures out [C03, C07, C10, C20]: (err == nil ==> fresh(result) && len(result) > 0) && (err != nil ==> result == nil)
+//@   modifies frame [C03, C07, C18]: nothing
 
 // the value that reaches the signer / verifier for parent `parent` (any of the eight supported spellings)
 //@ spec parentOK(parent any) Bool = (parent is *Sign1Message ==> parent.(*Sign1Message) != nil) && (parent is *SignMessage ==> parent.(*SignMessage) != nil)
@@ -914,7 +915,7 @@ package cose
 //@   ensures verbatim [C10, C20]: epoch() == old(epoch()) + 1 ==> s != nil && isParent(parent)
 //@         && err == signer_sign_err(signer, rand, withold(s.Signature, tbsFor(false, parent, ProtBytes(s.Headers), external)), old(epoch()))
 //@   ensures err_slot [C20]: s != nil && err != nil ==> s.Signature == old(s.Signature)
-//@   ensures gate [C04]: s != nil && epoch() != old(epoch()) ==> (algPresent(s.Headers.Protected) ==> algAgrees(s.Headers.Protected, signer_alg(signer))) && (algPresent(s.Headers.Protected) || len(external) > 0)
+//@   ensures gate [C01, C04]: s != nil && epoch() != old(epoch()) ==> (algPresent(s.Headers.Protected) ==> algAgrees(s.Headers.Protected, signer_alg(signer))) && (algPresent(s.Headers.Protected) || len(external) > 0)
 //@   ensures precheck [C10, C20]: (s == nil || old(len(s.Signature)) > 0 || !isParent(parent)) ==> err != nil && epoch() == old(epoch())
 //@   modifies frame [C18]: s.Signature, s.Headers.Protected, mapof(asmap(s.Headers.Protected))
 
@@ -1260,7 +1261,7 @@ package cose
 //@ func (*Countersignature).toBeSigned
 //@   requires ok: s != nil && parentOK(target)
 //@   ensures out [C10, C20]: (err == nil ==> fresh(result) && len(result) > 0 && isParent(target)) && (err != nil ==> result == nil)
-//@   ensures fun [C10]: err == nil ==> bytes(result) == old(tbsFor(false, target, ProtBytes(s.Headers), external))
+//@   ensures fun [C03, C07, C10]: err == nil ==> bytes(result) == old(tbsFor(false, target, ProtBytes(s.Headers), external))
 //@   modifies frame [C18]: nothing
 
 //@ func (*Key).ParamBytes
